@@ -1413,6 +1413,12 @@ impl ErasedNode for Node {
         let mut parent_indices = parent_indices_cell.borrow_mut();
         tracing::debug!(child_id = ?child.id, child_index = %child_index, parent = %parent.kind_debug_ty(), "remove_parent");
 
+        if child_index as usize >= parent_indices.my_parent_index_in_child_at_index.len() {
+            // The parent never recorded an edge to this input: it is being torn down half-linked
+            // (e.g. a panic, such as exceeding the height limit, struck while it was becoming
+            // necessary and linking its inputs one by one). There is nothing to unlink.
+            return;
+        }
         let parent_index = parent_indices.my_parent_index_in_child_at_index[child_index as usize];
 
         debug_assert!(
